@@ -13,10 +13,14 @@
    missing mandatory attribute is seen by the parser or by validate_update, and every
    parse failure of the UPDATE arm is one of the Spec's "cannot locate the NLRI" cases.
 
-   Scope: the NLRI families whose decoders are modelled (IPv4/IPv6 unicast and
-   multicast, labeled unicast, VPN); [no_other] makes every other family fail to parse,
-   and the Spec calls such a frame unlocatable.  Value syntax of AIGP, PREFIX_SID,
-   BGP-LS and TUNNEL_ENCAP is not judged (the receive path keeps them as bytes). *)
+   Scope: every NLRI family the crate can negotiate is modelled since round 3
+   (IPv4/IPv6 unicast and multicast, labeled unicast, VPN, EVPN, RTC, SR policy, MUP,
+   flowspec and flowspec-VPN, BGP-LS), so a malformed attribute next to NLRI of any of
+   them, and NLRI of any of them that cannot be parsed, are covered; [no_other] is the
+   decoder argument for families outside that list and is never reached
+   (Proofs/WireMsg.v try_parse_other: try_parse does not depend on it).  Value syntax of
+   AIGP, PREFIX_SID, BGP-LS attribute and TUNNEL_ENCAP is not judged (the receive path
+   keeps them as bytes). *)
 From Coq Require Import List NArith Bool.
 From RB Require Import Base.Val Base.Bytes Model.Wire Model.WireNlri Model.WireUpdate Model.WireMsg
      Spec.Rfc7606 Model.Validate Proofs.Validate Proofs.Rfc7606.
